@@ -499,15 +499,20 @@ def interp(n, y1, y2, y3):
     return y2 + n * (a + b + n * c) / 2.0
 
 
-def case_rts(mon, lonw, lat, a2, d2, da, dd, h0, delta_t, theta0):
-    """Synthetic body: right ascension a2 + da*n (+ small curvature),
-    declination d2 + dd*n, n in days from the middle date."""
+def case_rts(mon, lonw, lat, a2, d2, da, dd, h0, delta_t, theta0,
+             cur=None, curd=0.0):
+    """Synthetic body: right ascension a2 + da*n (+ curvature cur, 2 % of
+    da unless given), declination d2 + dd*n (+ curd), n in days from the
+    middle date.  da = dd = 0 with a curvature is a body at its stationary
+    point: the same place the day before and the day after, another one on
+    the day itself."""
     from pymeeus import Coordinates as C
     from pymeeus.Angle import Angle
     mon.evals += 1
-    cur = 0.02 * da
+    if cur is None:
+        cur = 0.02 * da
     al = [a2 - da + cur, a2, a2 + da + cur]
-    de = [d2 - dd, d2, d2 + dd]
+    de = [d2 - dd + curd, d2, d2 + dd + curd]
     de = [max(-89.9, min(89.9, v)) for v in de]
     case = {"lon_west": lonw, "lat": lat, "alpha": al, "delta": de, "h0": h0,
             "delta_t": delta_t, "theta0": theta0}
@@ -659,5 +664,14 @@ def run(mon, spec):
         p = [rng.uniform(-180, 180), lat, rng.uniform(0, 360), d2, da, dd,
              rng.choice((-0.5667, -0.8333, 0.125, 0.0)),
              rng.choice((56.0, 69.0, 0.0, 32.184)), rng.uniform(0, 360)]
+        r = rng.random()
+        if r < 0.1:
+            # stationary point / turning point in one or both coordinates
+            p[4], p[5] = 0.0, 0.0
+            p += [rng.uniform(-0.3, 0.3), rng.uniform(-0.1, 0.1)]
+            mon.cls("body-at-a-stationary-point", tuple(p))
+        elif r < 0.15:
+            p[4] = 0.0
+            p += [rng.uniform(-0.3, 0.3), 0.0]
         mon.begin("rts", p)
         case_rts(mon, *p)
